@@ -277,6 +277,31 @@ def gen_vconn(rng, n):
     return out
 
 
+def gen_udp_gate_flush(rng, n):
+    """UDP -> tunnel with a STALLED tunnel Write: `pre` datagrams leave one by one through the 20 ms timed flush, then the
+    timed flush of the next one stalls inside tunnel Write (consumes p only when released) while further datagrams arrive"""
+    out = []
+    for i in range(n):
+        pre = rng.choice([0, 0, 1, 2]) if i else 0
+        k = pre + 1 + rng.choice([1, 2, 3, 5])
+        ds = [rand_bytes(rng, rng.choice([1, 2, 4, 4, 7, 300])) for _ in range(k)]
+        if i % 3 == 0:      # same length: a framed successor overwrites its predecessor exactly
+            ds = [bytes([65 + j]) * 4 for j in range(k)]
+        out.append({"mode": "udpgate", "pre": pre, "dgrams": [d.hex() for d in ds]})
+    return out
+
+
+def own_value(c, o, rng):
+    """schedule of the ownership model mirroring the harness: ticker mid-Write while the main loop wants the lock, + noise"""
+    n, pre = len(c["dgrams"]), c["pre"]
+    sched = []
+    for _ in range(pre):
+        sched += [0, 0, 0, 1, 1, 1, 1]
+    sched += [0, 0, 0, 1, 1] + [0] * rng.randrange(1, 5) + [rng.randrange(2) for _ in range(rng.randrange(0, 6))]
+    sched += [0, 1] * (8 * n + 16)
+    return [3, [bytes.fromhex(x) for x in c["dgrams"]], sched, bytes.fromhex(o["g"]["tunnel_out"])]
+
+
 def corpus():
     d = os.path.join(vlib.VERIF, "corpus", "C12")
     out = []
@@ -350,6 +375,9 @@ def model_values(c, o, rng):
         vals.append(("deframe", deframe_value(c["tunnel"]["data"], c["tunnel"], c.get("uwfail", -1), u)))
     elif c["mode"] == "tcp":
         vals.append(("tcp", tcp_value(c, o, rng)))
+    elif c["mode"] == "udpgate":
+        if (o.get("g") or {}).get("returned"):
+            vals.append(("own", own_value(c, o, rng)))
     elif c["mode"] in ("udpreal", "vconn"):
         r = o.get("r") or {}
         if r.get("returned") and not r.get("skipped"):
@@ -364,6 +392,8 @@ def describe(c):
     if c["mode"] == "rt":
         return "rt dgram sizes %s cut=%s cuts=%s end=%s wd=%s" % ([len(x) // 2 for x in c["dgrams"]][:12], c.get("cut"),
                                                                  (c["tunnel"].get("cuts") or [])[:8], c["tunnel"].get("end"), c["tunnel"].get("wd"))
+    if c["mode"] == "udpgate":
+        return "udpgate pre=%d datagram sizes %s" % (c["pre"], [len(x) // 2 for x in c["dgrams"]])
     if c["mode"] in ("udp", "udpreal", "vconn"):
         return "%s tunnel=%s(%d bytes) cuts=%s end=%s wd=%s" % (c["mode"], c["tunnel"]["data"][:60], len(c["tunnel"]["data"]) // 2,
                                                              (c["tunnel"].get("cuts") or [])[:8], c["tunnel"].get("end"), c["tunnel"].get("wd"))
@@ -400,6 +430,7 @@ def run(ctx, only_cases=None):
         cases += gen_udp_gate(rng, 210 if thorough else 42)
         cases += gen_udp_real(rng, thorough)
         cases += gen_vconn(rng, 200 if thorough else 28)
+        cases += gen_udp_gate_flush(rng, 40 if thorough else 8)
     outs = run_batch(binary, cases)
 
     # (iii) the property's predicate, evaluated by the harness on the real relays' own outputs
@@ -453,7 +484,7 @@ def run(ctx, only_cases=None):
             "tcp_gate": 0, "tcp_write_fault": 0, "tcp_read_error": 0, "udp_tunnel_gate": 0,
             "tcp_gated_endpoint_wrap": {str(k): 0 for k in range(7)}, "udp_gated_tunnel_wrap": {str(k): 0 for k in range(7)},
             "real_udpconn_batch_path": 0, "real_udpconn_records_per_case": [], "real_udpconn_retried": 0, "real_udpconn_skipped": 0,
-            "real_udpvirtualconn_slow_socket": 0}
+            "real_udpvirtualconn_slow_socket": 0, "stalled_tunnel_write_during_timed_flush": 0}
     for c, o in zip(cases, outs):
         h = vlib.hashlib.sha256(json.dumps(c, sort_keys=True).encode()).hexdigest()
         distinct.add(h)
@@ -471,6 +502,10 @@ def run(ctx, only_cases=None):
             dist["tunnel_end_error"] += c["tunnel"].get("end", 0)
             dist["end_with_last_chunk"] += 1 if c["tunnel"].get("wd") else 0
             if u2.get("n_delivered", 0) >= 1 and c.get("cut", -1) >= 0:
+                nontrivial.add(h)
+        elif c["mode"] == "udpgate":
+            dist["stalled_tunnel_write_during_timed_flush"] += 1
+            if len((o.get("g") or {}).get("records") or []) >= 2:
                 nontrivial.add(h)
         elif c["mode"] in ("udpreal", "vconn"):
             r = o.get("r") or {}
@@ -535,6 +570,9 @@ def run(ctx, only_cases=None):
         "local writer sub-slices of its re-assembly buffer, valid only until flush() returns, so the UDP side's Write must not "
         "retain p (io.Writer contract). Checked on the real mapping.UDPVirtualConn (built by the adapter's getOrCreateSession) over "
         "a gated slow socket whose sends are held until the relay has consumed the whole tunnel stream, and on a real *net.UDPConn",
+        "batchBuf ownership: the model's steps are Lock / take slice / Write returns / Unlock / frame-one-datagram-under-the-lock; "
+        "the harness realises the critical schedule with a tunnel whose Write signals entry, stalls, and consumes p only when "
+        "released (the relay's own 20 ms ticker provides the timed flush: each such case costs ~20-40 ms)",
         "real *net.UDPConn cases use loopback UDP; a count/content failure is reported only if it repeats in 3 attempts (a kernel "
         "drop would not); if no loopback socket can be opened the cases are counted as skipped",
         "endpoints are handed to the real relays through the real iocopy.NewReadWriteCloser[WithCloseWrite] in 5 configurations "
